@@ -1303,7 +1303,7 @@ class Network(Cached):
     #  Degree related measures
     #
 
-    @Cached.method()
+    @Cached.method(attrs=("_mut_la",))
     def degree(self, key=None):
         """
         Return list of degrees.
@@ -1907,7 +1907,8 @@ class Network(Cached):
             return ((numerator/typical_weight**2 - 3.0*bilk - 1.0)
                     / (T - ksum/typical_weight - bilk + 2))
 
-    @Cached.method(name="the local cycle motif clustering coefficients")
+    @Cached.method(name="the local cycle motif clustering coefficients",
+                   attrs=("_mut_la",))
     def local_cyclemotif_clustering(self, key=None):
         """
         For each node, return the clustering coefficient with respect to the
@@ -1930,7 +1931,8 @@ class Network(Cached):
         T = self.indegree() * self.outdegree() - self.bildegree()
         return self._motif_clustering_helper(t_func, T, key=key)
 
-    @Cached.method(name="the local mid. motif clustering coefficients")
+    @Cached.method(name="the local mid. motif clustering coefficients",
+                   attrs=("_mut_la",))
     def local_midmotif_clustering(self, key=None):
         """
         For each node, return the clustering coefficient with respect to the
@@ -1953,7 +1955,8 @@ class Network(Cached):
         T = self.indegree() * self.outdegree() - self.bildegree()
         return self._motif_clustering_helper(t_func, T, key=key)
 
-    @Cached.method(name="the local in motif clustering coefficients")
+    @Cached.method(name="the local in motif clustering coefficients",
+                   attrs=("_mut_la",))
     def local_inmotif_clustering(self, key=None):
         """
         For each node, return the clustering coefficient with respect to the
@@ -1976,7 +1979,8 @@ class Network(Cached):
         T = self.indegree() * (self.indegree() - 1)
         return self._motif_clustering_helper(t_func, T, key=key)
 
-    @Cached.method(name="the local out motif clustering coefficients")
+    @Cached.method(name="the local out motif clustering coefficients",
+                   attrs=("_mut_la",))
     def local_outmotif_clustering(self, key=None):
         """
         For each node, return the clustering coefficient with respect to the
@@ -2000,7 +2004,7 @@ class Network(Cached):
         return self._motif_clustering_helper(t_func, T, key=key)
 
     @Cached.method(name="the local n.s.i. cycle motif clustering coefficients",
-                   attrs=("_mut_nw",))
+                   attrs=("_mut_nw", "_mut_la"))
     def nsi_local_cyclemotif_clustering(self, key=None, typical_weight=None):
         """
         For each node, return the nsi clustering coefficient with respect to
@@ -2048,7 +2052,7 @@ class Network(Cached):
             typical_weight=typical_weight, ksum=ksum)
 
     @Cached.method(name="the local n.s.i. mid. motif clustering coefficients",
-                   attrs=("_mut_nw",))
+                   attrs=("_mut_nw", "_mut_la"))
     def nsi_local_midmotif_clustering(self, key=None, typical_weight=None):
         """
         For each node, return the nsi clustering coefficient with respect to
@@ -2096,7 +2100,7 @@ class Network(Cached):
             typical_weight=typical_weight, ksum=ksum)
 
     @Cached.method(name="the local n.s.i. in motif clustering coefficients",
-                   attrs=("_mut_nw",))
+                   attrs=("_mut_nw", "_mut_la"))
     def nsi_local_inmotif_clustering(self, key=None, typical_weight=None):
         """
         For each node, return the nsi clustering coefficient with respect to
@@ -2144,7 +2148,7 @@ class Network(Cached):
             typical_weight=typical_weight, ksum=ksum)
 
     @Cached.method(name="the local n.s.i. out motif clustering coefficients",
-                   attrs=("_mut_nw",))
+                   attrs=("_mut_nw", "_mut_la"))
     def nsi_local_outmotif_clustering(self, key=None, typical_weight=None):
         """
         For each node, return the nsi clustering coefficient with respect to
@@ -2572,7 +2576,7 @@ class Network(Cached):
     #  Measure path lengths
     #
 
-    @Cached.method(name="path lengths")
+    @Cached.method(name="path lengths", attrs=("_mut_la",))
     def path_lengths(self, link_attribute=None):
         """
         For each pair of nodes i,j, return the (weighted) shortest path length
